@@ -46,7 +46,10 @@ def gen_matrix(rng, kind):
         return rng.normal(size=(m, r)) @ rng.normal(size=(r, n))
     if kind == 'diag':
         X = np.zeros((m, n))
+        # every other one with a singular value that is exactly zero (dead channels, padded snapshots)
         s = np.sort(rng.integers(1, 6, size=k).astype(float))[::-1]
+        if rng.random() < 0.5:
+            s[-1] = 0.0
         X[np.arange(k), np.arange(k)] = s
         return X
     return rng.normal(size=(m, n))
@@ -109,6 +112,9 @@ def check_one(rng, X, trunc, param, reuse=None):
         # the property's own predicate on the estimator's own (bit-exact) singular values
         return False, dict(what='cutoff truncation kept a singular value that does not exceed the cutoff',
                            cutoff=float(param), kept=s.tolist(), shape=list(X.shape)), full, r
+    if trunc == 'cutoff' and r < k and float(np.max(full[r:])) > float(param) * (1 + 1e-9) + 1e-12 * scale:
+        return False, dict(what='cutoff truncation discarded a singular value that exceeds the cutoff',
+                           cutoff=float(param), kept=s.tolist(), singular_values=full.tolist(), shape=list(X.shape)), full, r
     if want is not None and r != want:
         return False, dict(what=f'retained rank does not obey the {trunc} rule', rank=int(r), expected=int(want),
                            param=param, shape=list(X.shape)), full, r
@@ -133,6 +139,10 @@ def run_cases(rng, n):
         # the economy factors give the bit-exact singular values the rule is applied to
         eco = pykoop.Tsvd().fit(X)
         sig = eco.singular_values_
+        if sig.shape[0] != k:
+            bad.append(dict(what='economy truncation does not keep all min(m, n) singular values', rank=int(sig.shape[0]), expected=k,
+                            truncation='economy', truncation_param=None, X=np.asarray(X).tolist(), matrix_kind=kind, reused_estimator=False))
+            sig = np.linalg.svd(np.asarray(X, dtype=float), compute_uv=False)
         r_ = int(rng.integers(0, k + 3))
         # the rank as a python int and as what numpy hands out (integer scalar, 0-d array, result of matrix_rank)
         trials = [('economy', None), ('rank', r_), ('rank', [np.int64, np.int32, np.array, np.uint8][cid % 4](max(1, r_ - 1)))]
